@@ -235,3 +235,9 @@ META = {
         'technique': 'definite assignment + call conformance + stack-discipline typestate rule + regular-language inclusion',
     },
 }
+
+
+# sentences appended to the level texts by later rounds (kept apart so that the original texts stay readable)
+ADDENDA = {'C01': ' Round 9: a scan step that emits a text shorter than the match continues at the end of exactly that text (TOK-12, abstract state on the CFG of the scan loop).', 'C09': ' Round 9: TOK-12 (emitted text vs. scan position), RX-12 (the BOM is recognised only with startswith / whole-value comparison), NORM-13 (split_prefix gets a start computed from that leaf).', 'C03': ' Round 9: RX-12 (the BOM constant is never searched for inside text).', 'C11': ' Round 9: leaf classes with the single-line end_pos (the key of the position lookup) receive no token kind whose text can contain a line break (TREE-8).', 'C13': ' Round 9: every exception class a codec probe of the string checks may raise is caught (EXC-3, exception-escape analysis); NORM-13.', 'C16': ' Round 9: a temporary file that is renamed onto the pickle is private to the entry (CACHE-4).', 'C17': ' Round 9: no file is memory-mapped (CACHE-8: truncation by a concurrent writer would be SIGBUS); CACHE-4 private temporary.', 'C19': ' Round 9: every return of the default Normalizer.visit is the leaf rendering or the join of all children (TREE-5).', 'C20': ' Round 9: NORM-13 (a prefix is split with a start position computed from its own leaf).'}
+
+TECH_ADDENDA = {'C01': ' + abstract (token text, scan position) state on the CFG of the scan loop', 'C09': ' + abstract (token text, scan position) state on the CFG of the scan loop + BOM API-ban lint', 'C13': ' + exception-escape analysis of the codec probes', 'C15': ' + binary-read / who-may-decode rule on the source acquisition path', 'C17': ' + definite assignment over cache.py + memory-mapping ban', 'C11': ' + language emptiness (line breaks) of token kinds mapped to single-line leaf classes'}
